@@ -229,6 +229,8 @@ def _tls(ctx, rep, stub, tmp):
                         kw = stub.calls[0][1]
                         if kw.get('cert') != (cert, key) or kw.get('verify') != (ca if (verify and ca) else verify):
                             rep.fail(k, 'https request uses cert=%r verify=%r' % (kw.get('cert'), kw.get('verify')), {})
+                        if kw.get('timeout') != conf.oslo_policy.remote_timeout:
+                            rep.fail(k + '|timeout', 'https request timeout %r, configured %r' % (kw.get('timeout'), conf.oslo_policy.remote_timeout), {})
                     m = driver.call([dict(scenario.model_request({'rules': {'p': 'https://h/x'}, 'queries': [
                         {'rule': 'p', 'target': {}, 'creds': {}}], 'remote': {'https://h/x': {'body': 'True', 'status': 200}}}),
                         cert_ok=cert != missing, key_ok=key != missing, ca_ok=not (verify and ca == missing))])[0]['out'][0]
